@@ -25,6 +25,13 @@ typedef __int128 i128;
 
 // ------------------------------------------------------------------------------------------- reference values
 
+// Configuration of this build.  With ARDUINOJSON_USE_DOUBLE=0 a floating value stored in a document is kept as
+// the nearest float (reference value = (double)(float)x); integers keep their exact 64-bit storage and a C++
+// scalar operand of type double keeps its full value ("otherwise as doubles").
+static const bool kStoresDouble = ARDUINOJSON_USE_DOUBLE != 0;
+static const char* const kCfgSuffix = kStoresDouble ? "" : "|cfg=nodouble";
+inline double stored(double d) { return kStoresDouble ? d : double(float(d)); }
+
 enum Kind { KNull, KBool, KInt, KFlt, KStr, KRaw, KArr, KObj };
 static const char* const kKindName[] = {"null", "bool", "int", "flt", "str", "raw", "arr", "obj"};
 
@@ -214,7 +221,8 @@ inline const i128 P(int n) { return i128(1) << n; }
 
 // the integer values of the alphabet
 inline std::vector<i128> integers() {
-  return {0,          1,          -1,           2,           10,         -10,         P(31) - 1,  P(31),       P(31) + 1,
+  return {0,          1,          -1,           2,           10,         -10,         P(24) - 1,  P(24),       P(24) + 1,
+          P(31) - 1,  P(31),      P(31) + 1,
           -P(31),     -P(31) - 1, -P(31) + 1,   P(32) - 1,   P(32),      P(32) + 1,   P(53) - 1,  P(53),       P(53) + 1,
           -P(53),     -P(53) - 1, -P(53) + 1,   P(63) - 1,   P(63),      P(63) + 1,   -P(63),     -P(63) + 1,  P(64) - 1};
 }
@@ -336,10 +344,16 @@ inline Alphabet makeAlphabet(bool thorough) {
     A.add(mk("flt", dblName(d), [f](JsonVariant v) { v.set(f); }, refFlt(double(f))));
   }
   std::vector<double> doubles = floats;
-  for (double d : {2147483647.0, 2147483649.0, -2147483649.0, 4294967295.0, 4294967297.0, two53 - 1, two53 + 2, -(two53 - 1),
-                   two63 - 1024, two63 + 2048, -(two63 + 2048), two64 - 2048, 0.1, 1e300, -1e300, 4.9406564584124654e-324})
+  for (double d : {16777215.0, 16777217.0, 2147483647.0, 2147483649.0, -2147483649.0, 4294967295.0, 4294967297.0, two53 - 1, two53 + 2,
+                   -(two53 - 1), two63 - 1024, two63 + 2048, -(two63 + 2048), two64 - 2048, 0.1, 1e300, -1e300, 4.9406564584124654e-324})
     doubles.push_back(d);
-  for (double d : doubles) A.add(mk("dbl", dblName(d), [d](JsonVariant v) { v.set(d); }, refFlt(d)));
+  for (double d : doubles) {
+    // named after the value handed to set(double); without double storage the document keeps the nearest float
+    // (elements beyond the float range, or that underflow to zero, are dropped in that configuration)
+    double kept = stored(d);
+    if (!kStoresDouble && !std::isnan(d) && kept != d && (std::isinf(kept) || kept == 0)) continue;
+    A.add(mk("dbl", dblName(d), [d](JsonVariant v) { v.set(d); }, refFlt(kept)));
+  }
   // JSON spellings that the number parser converts exactly
   A.add(jsonVal("0.5", refFlt(0.5)));
   A.add(jsonVal("-0.5", refFlt(-0.5)));
@@ -477,7 +491,9 @@ inline Sig both(const A& a, const B& b) {
 struct Case {
   Ctx& C;
   std::string lhs, rhs, side, docs;
-  std::string key(const char* op) const { return "cmp:lhs=" + lhs + "|rhs=" + rhs + "|op=" + op + "|side=" + side + "|docs=" + docs; }
+  std::string key(const char* op) const {
+    return "cmp:lhs=" + lhs + "|rhs=" + rhs + "|op=" + op + "|side=" + side + "|docs=" + docs + kCfgSuffix;
+  }
 };
 
 inline std::string describe(const Expect& e) {
@@ -726,7 +742,7 @@ inline void selfCheck(Ctx& C, const Alphabet& A) {
 // ------------------------------------------------------------------------------------------- enumeration
 
 inline void run(Ctx& C) {
-  const bool TH = C.thorough();
+  const bool TH = C.thorough() && !C.flag("flat");  // --flat: configuration-variant job, nested containers add nothing there
   Alphabet A = makeAlphabet(TH);
   if (C.shard == 0 && C.only < 0) selfCheck(C, A);
 
@@ -758,8 +774,10 @@ inline void run(Ctx& C) {
     float s = float(d);
     scalarCases(C, A, "float", dblName(d), refFlt(double(s)), s, ",flt,");
   }
-  for (double d : {2147483647.0, 4294967295.0, two53 - 1, two53 + 2, two63 - 1024, two63 + 2048, -(two63 + 2048), two64 - 2048, 0.1, 1e300,
-                   4.9406564584124654e-324})
+  // doubles that are not float-representable, in particular the neighbours of the integer alphabet around 2^24, 2^31, 2^32, 2^53:
+  // a double scalar keeps its full value in every configuration
+  for (double d : {16777215.0, 16777217.0, -16777217.0, 2147483647.0, 2147483649.0, -2147483649.0, 4294967295.0, 4294967297.0, two53 - 1,
+                   two53 + 2, -(two53 - 1), two63 - 1024, two63 + 2048, -(two63 + 2048), two64 - 2048, 0.1, 1e300, 4.9406564584124654e-324})
     fl.push_back(d);
   for (double d : fl) scalarCases(C, A, "double", dblName(d), refFlt(d), d, ",dbl,flt,");
 
@@ -811,12 +829,13 @@ inline void run(Ctx& C) {
   size_t flat = 0;
   for (auto& v : A.V)
     if (!v.nested) flat++;
-  char buf[400];
+  char buf[600];
   snprintf(buf, sizeof buf,
            "alphabet of %zu values (%zu flat%s); all %zu^2 ordered pairs x {same,different} document x 6 operators x up to 9 operand "
            "forms; every flat value against every scalar of 10 integer types, float, double, bool, 7 string types, nullptr, on "
-           "both sides",
-           A.V.size(), flat, TH ? " + 2-level nested containers over a reduced alphabet" : "", A.V.size());
+           "both sides; %s",
+           A.V.size(), flat, TH ? " + 2-level nested containers over a reduced alphabet" : "", A.V.size(),
+           kStoresDouble ? "ARDUINOJSON_USE_DOUBLE=1" : "ARDUINOJSON_USE_DOUBLE=0 (stored floating values are floats, double scalars keep 64 bits)");
   C.bound(buf);
 }
 }  // namespace nx_compare
